@@ -316,6 +316,9 @@ class GC(FileStorageFormatter):
                             extra_roots.append(dh.back)
                     else:
                         self.reachable[dh.oid] = dh.back
+                        # The object was garbage at the pack time and
+                        # comes back: what it refers to comes back, too.
+                        extra_roots.append(dh.back)
 
                 pos += dh.recordlen()
 
